@@ -148,13 +148,37 @@ Proof.
 Qed.
 
 (* ------------------------------------------------------------------ the oracle accepts what an allocation-like request observes *)
+(* what the oracle asks of a call log with the wrappers installed follows from what it asks without them *)
+Lemma hard_failed_none cs : any_failed cs = false -> hard_failed cs = false.
+Proof.
+  unfold any_failed, hard_failed. induction cs as [|x cs IH]; cbn [existsb]; [reflexivity|].
+  intro H. apply orb_false_iff in H. destruct H as [H1 H2]. rewrite H1, (IH H2). reflexivity.
+Qed.
+
+Lemma stat_got_le cs : stat_got cs <= got cs.
+Proof.
+  unfold stat_got, got. induction cs as [|x cs IH]; cbn [filter length]; [lia|].
+  unfold is_stat at 1. destruct x as [[k sz] ok]. cbn [fst snd].
+  destruct (N.eqb_spec k 0) as [E|E]; cbn [andb].
+  - subst k. cbn [N.eqb negb andb]. destruct ((sz =? c05_accountant_node_size) && ok) eqn:E1.
+    + apply andb_true_iff in E1. destruct E1 as [_ ->]. cbn [length]. lia.
+    + destruct ok; cbn [length]; lia.
+  - destruct (negb (k =? 2) && ok); cbn [length]; lia.
+Qed.
+
+Lemma wbalanced_of_balanced cs : balanced cs = true -> wbalanced cs = true.
+Proof.
+  unfold balanced, wbalanced. intro H. apply N.eqb_eq in H. pose proof (stat_got_le cs).
+  apply andb_true_iff. split; apply N.leb_le; lia.
+Qed.
+
 Lemma spec_alloc_null w c throwing n content before after_ok fd s' cs :
   calls_ok c n cs = true -> (any_failed cs = true \/ too_big c n = true) -> balanced cs = true -> total s' = before ->
   spec_alloc w c throwing n content before after_ok fd (snd (obs_of_alloc c throwing (ANull, s', cs) fd)) = true.
 Proof.
   intros Hc Hf Hb Ht. unfold spec_alloc, obs_of_alloc, mk_oobs. cbn [snd o_rep o_calls o_kind o_total o_dig].
   assert (Hf' : any_failed cs || too_big c n = true) by (apply orb_true_iff; exact Hf).
-  rewrite Hc, Hf', Hb, Ht, !N.eqb_refl, list_eqb_refl, !orb_true_r. destruct throwing; reflexivity.
+  rewrite Hc, Hf', Hb, (wbalanced_of_balanced _ Hb), Ht, !N.eqb_refl, list_eqb_refl, !orb_true_r. destruct throwing, w; reflexivity.
 Qed.
 
 Lemma spec_alloc_block w c throwing n content before after_ok fd s' cs b :
@@ -164,8 +188,8 @@ Lemma spec_alloc_block w c throwing n content before after_ok fd s' cs b :
 Proof.
   intros Hc Hf Hn (Hreq & Hlay) Hsz Hd Ht. unfold spec_alloc, obs_of_alloc, mk_oobs, layout_ok.
   cbn [snd o_rep o_calls o_kind o_total o_dig o_nk o_nv o_off o_req o_amod o_ovl].
-  rewrite Hc, Hf, Ht, Hd, !N.eqb_refl, list_eqb_refl, orb_true_r. apply N.ltb_lt in Hn. rewrite Hn.
-  change (K_PTR =? K_PTR) with true. cbn [negb andb].
+  rewrite Hc, Hf, (hard_failed_none _ Hf), Ht, Hd, !N.eqb_refl, list_eqb_refl, orb_true_r. apply N.ltb_lt in Hn. rewrite Hn.
+  change (K_PTR =? K_PTR) with true. replace (if w then false else false) with false by (destruct w; reflexivity). cbn [negb andb].
   destruct (b_sep b).
   - rewrite Hsz in Hlay. replace (0 + n + G c <=? b_req b) with true by (symmetry; apply N.leb_le; lia).
     rewrite N.leb_refl. reflexivity.
@@ -555,9 +579,23 @@ Proof.
     + split; [exact A|]. rewrite B. lia.
 Qed.
 
+(* ... and none of them keeps a region of the underlying allocator *)
+Lemma leak_all_ok bs : forall s acc, NoDup (map b_id bs) -> (forall i, In i (s_table s) <-> In i (map b_id bs)) -> leak_all s bs acc = acc.
+Proof.
+  induction bs as [|b r IH]; intros s acc Hn Hiff; [reflexivity|].
+  cbn [leak_all]. unfold release.
+  assert (Hm : mem (b_id b) (s_table s) = true) by (apply mem_in; apply Hiff; left; reflexivity).
+  rewrite Hm. cbn [map] in Hn. inversion Hn as [|? ? Hx Hn']; subst.
+  set (s1 := {| s_calls := s_calls s; s_blocks := remove_block (b_id b) (s_blocks s); s_table := remove_id (b_id b) (s_table s); s_err := s_err s |}).
+  rewrite (IH s1 (acc + 0 * (if b_sep b then 2 else 1)) Hn'); [lia|].
+  intro i. subst s1. cbn [s_table]. rewrite remove_id_in_iff, Hiff. cbn [map In]. split.
+  - intros [[E|E] Hne]; [congruence|exact E].
+  - intro E. split; [right; exact E|]. intro; subst i. exact (Hx E).
+Qed.
+
 Lemma run_meets_spec : forall sc, valid sc = true -> spec sc (run sc) = true.
 Proof.
-  intros sc Hv. unfold valid in Hv. apply andb_true_iff in Hv. destruct Hv as [Hv _].
+  intros sc Hv. unfold valid in Hv.
   apply andb_true_iff in Hv. destruct Hv as [Hc Hops].
   destruct (steps_ok (sc_wrap sc) (sc_cfg sc) (sc_fail sc) (sc_ops sc) Hc st0 0 Hops (inv_st0 _)) as [H S].
   unfold run, run_v, spec.
@@ -565,8 +603,10 @@ Proof.
   assert (Hiff : forall i, In i (s_table s) <-> In i (map b_id (s_blocks s))).
   { intro i. split; apply Permutation_in; [|apply Permutation_sym]; exact (i_table _ _ _ H). }
   destruct (release_all_ok (s_blocks s) s 0 (i_nodup _ _ _ H) Hiff) as [A B].
+  rewrite (leak_all_ok (s_blocks s) s 0 (i_nodup _ _ _ H) Hiff).
   destruct (release_all s (s_blocks s) 0) as [s' rep]. cbn [fst snd] in A, B.
-  cbn [ob_guard ob_ns ob_wrap ob_ops ob_end_live ob_end_total ob_end_rep].
+  cbn [ob_guard ob_ns ob_wrap ob_faults ob_ops ob_end_live ob_end_total ob_end_rep ob_end_leak].
   rewrite !eqb_reflx, N.eqb_refl. change (liveof st0) with (@nil (N * N * list N)) in S. rewrite S.
-  unfold liveof. rewrite end_eqb_live. unfold total. rewrite A, B. reflexivity.
+  unfold liveof. rewrite end_eqb_live. unfold total. rewrite A, B. cbn [length N.of_nat N.eqb andb].
+  apply N.leb_le. apply N.le_0_l.
 Qed.
